@@ -21,6 +21,7 @@ mod c10;
 mod c11;
 mod c12;
 mod c13;
+mod c14;
 mod c15;
 mod c15x;
 mod c16;
@@ -68,6 +69,38 @@ fn main() {
     if std::env::var("OXIDD_STACK_SIZE").is_err() {
         unsafe { std::env::set_var("OXIDD_STACK_SIZE", "2097152") };
     }
+    if prop == "DBG2" {
+        use kinds::BoolKind;
+        use oxidd::{BooleanFunction, ManagerRef, Manager};
+        let mr = kinds::BddK::new_manager(90, 16, 1);
+        mr.with_manager_exclusive(|m| m.add_vars(8));
+        let which = std::env::var("W").unwrap_or_default();
+        let vs = build::vars::<kinds::BddK>(&mr, 8);
+        println!("nodes after vars: {}", kinds::BddK::num_inner_nodes(&mr));
+        let fill = c14::fill_pub::<kinds::BddK>(&mr, 82).unwrap();
+        println!("nodes after fill: {}", kinds::BddK::num_inner_nodes(&mr));
+        if which.contains('o') {
+            let r = vs[0].and(&vs[1]);
+            println!("and at full store: {:?}", r.is_ok());
+        }
+        if which.contains('g') {
+            println!("extra gc removed {}", kinds::BddK::gc(&mr));
+        }
+        if which.contains('a') {
+            let hs: Vec<&<kinds::BddK as BoolKind>::F> = vs.iter().chain(fill.iter()).collect();
+            println!("audit: {:?}", kinds::BddK::audit(&mr, &hs, true).map(|_| ()));
+        }
+        drop(fill);
+        println!("gc removed {}", kinds::BddK::gc(&mr));
+        println!("nodes after gc: {}", kinds::BddK::num_inner_nodes(&mr));
+        let mut held = vec![];
+        for i in 0..6 {
+            let r = if which.contains('i') { vs[i % 6].ite(&vs[i % 6 + 1], &vs[i % 6 + 2]) } else { vs[i % 7].and(&vs[i % 7 + 1]) };
+            println!("and {i}: ok={} nodes {}", r.is_ok(), kinds::BddK::num_inner_nodes(&mr));
+            held.push(r);
+        }
+        return;
+    }
     if prop == "DBG" {
         // vrun dbg <tier-ignored> --replay file : run a history in-process with dumps
         let v: serde_json::Value = serde_json::from_str(&std::fs::read_to_string(cfg.replay.as_ref().unwrap()).unwrap()).unwrap();
@@ -113,6 +146,7 @@ fn main() {
         "C11" => c11::run(&cfg),
         "C12" => c12::run(&cfg),
         "C13" => c13::run(&cfg),
+        "C14" => c14::run(&cfg),
         "C15" => c15::run(&cfg),
         "C16" => c16::run(&cfg),
         "C17" => c17::run(&cfg),
